@@ -764,6 +764,13 @@ pub fn check_c13(h: &[UEv]) -> Option<Violation> {
         .last();
     let trig_inv = trigger.and_then(|t| m.drop_inv.get(&t).copied()).unwrap_or(a);
     let force_before = m.kinds.iter().filter(|(_, k)| **k == "force").any(|(o, _)| m.drop_inv.get(o).map(|d| *d < a).unwrap_or(false));
+    // a slot that nobody ever opened has no value to report
+    for (n, present) in [(1u64, v1), (2, v2)] {
+        let opened = m.kinds.keys().any(|o| (100..10_000).contains(o) && slot_no(h, *o) == n);
+        if !opened && present.is_some() {
+            return Some(Violation::new("slot_value_from_nowhere", format!("slot {n} was never opened (no guard was ever handed out), yet the entry reports a value for it: {present:?}")));
+        }
+    }
     for (g, kind) in m.kinds.iter().filter(|(_, k)| k.starts_with("slot_")) {
         if slot_no(h, *g) == 3 {
             // a marker carries no value: only "the entry waits for the guard" applies
